@@ -17,7 +17,7 @@ L(s) == [t |-> "list", v |-> s]
 Pr(a, b) == [t |-> "pair", l |-> a, r |-> b]
 Cat(a, b) == [t |-> "concat", l |-> a, r |-> b]
 Atoms == { U, TT, FF, I(0), I(1), I(-1), I(2147483647), MkDy(0, 0), MkDy(1, 0), MkDy(1, -1), MkDy(-1, 0), MkDy(1, 31),
-           Ch(97), Ch(98), By(97), By(1), MkSym("a"), MkSym("b"), Str(<<>>), Str(<<97>>), Str(<<97, 98>>), Str(<<98>>),
+           Ch(97), Ch(98), Ch(233), Str(<<233>>), Str(<<233, 97>>), By(97), By(1), MkSym("a"), MkSym("b"), Str(<<>>), Str(<<97>>), Str(<<97, 98>>), Str(<<98>>),
            Bytes(<<>>), Bytes(<<97>>), Bytes(<<1>>), Bytes(<<1, 2>>), [t |-> "symlist", v |-> <<MkSym("a"), MkSym("b")>>],
            [t |-> "symlist", v |-> <<MkSym("b"), MkSym("a")>>], [t |-> "type", v |-> "Number"], [t |-> "type", v |-> "List"],
            [t |-> "expr", j |-> 0], [t |-> "ext", v |-> 0], [t |-> "ext", v |-> 1], [t |-> "range", l |-> I(0), r |-> I(2)], [t |-> "range", l |-> I(0), r |-> I(3)] }
@@ -29,6 +29,8 @@ Cats1 == { Cat(x, y) : x \in {I(1), U, MkSym("a")}, y \in {I(1), MkDy(1, 0), Ch(
          \cup { Cat(L(<<x>>), L(<<y>>)) : x \in {I(1), U}, y \in {I(1), MkDy(1, 0), Ch(97)} }
          \cup { Cat(L(<<>>), L(<<x, y>>)) : x \in {I(1), U}, y \in {I(1), MkDy(1, 0)} }
          \cup { Cat(Cat(I(1), I(1)), I(1)), Cat(I(1), Cat(I(1), I(1))), Cat(L(<<I(1), I(1)>>), I(1)) }
+         \* the same concatenation twice inside one (shared by address in the second address variant), next to its flat spellings
+         \cup { Cat(Cat(I(1), I(2)), Cat(I(1), I(2))), Cat(L(<<I(1), I(2)>>), L(<<I(1), I(2)>>)), L(<<I(1), I(2), I(1), I(2)>>), Cat(I(1), I(2)) }
 Nested == { L(<<L(<<I(1)>>), Pr(MkSym("a"), L(<<I(1), I(2)>>))>>), L(<<L(<<I(1)>>), Pr(MkSym("a"), L(<<I(1), I(3)>>))>>),
             L(<<L(<<MkDy(1, 0)>>), Pr(MkSym("a"), L(<<I(1), MkDy(1, 1)>>))>>), L(<<L(<<I(1)>>), Pr(MkSym("a"), L(<<I(1), I(2), I(3)>>))>>),
             L(<<I(1), I(1), I(1)>>), L(<<I(1), I(2), I(3)>>), L(<<I(1), I(5), I(3)>>), L(<<I(1), TT, I(3)>>), L(<<I(1), I(2)>>),
